@@ -17,7 +17,7 @@ Next ==
   /\ LET e == Traces[i].ev[l]
          n == Traces[i].w
      IN CASE e.k = "assign" ->
-               LET out == ImplAssign(rows, n, Traces[i].blank, e.r0, e.r1, e.c0, e.c1, Blk(e.block))
+               LET out == ImplAssignS(rows, n, Traces[i].blank, e.r0, e.r1, e.c0, e.c1, Blk(e.block), [k \in 1..Len(e.block) |-> e.block[k].k = "s"])
                IN /\ v' = Fail(AssignVerdict(rows, e.rows, n, e.exc # "", e.r0, e.r1, e.c0, e.c1, Blk(e.block)))
                   /\ conf' = IF out[2] = e.rows /\ (out[1] = "ok") = (e.exc = "") THEN conf ELSE "drift"
                   /\ rows' = e.rows
